@@ -105,7 +105,7 @@ Non-trivial = a prefilter was selected, the span contains a candidate byte posit
         "earliest-mode results are specified only as a validity predicate (C14); a packed prefilter legitimately returns the full leftmost match in earliest mode, so on/off equality is not demanded there",
         "variant classification depends on Debug formatting; it never produces a violation",
     ],
-    cases_quick: 160_000,
+    cases_quick: 240_000,
     cases_thorough: 3_000_000,
     strategy: c05_strategy,
     check: c05_check,
@@ -425,7 +425,7 @@ R1 search(h, s..e) == shift(search(h[s..e]), s) for find / earliest / iter / ove
 R3 every reported match lies inside the span; R4 start = end+1 yields nothing; R5 every way of establishing the same span on an Input (span, range, set_span, set_start/set_end, open-ended set_range after narrowing) gives the same span and result; R1-R3 also for packed::Searcher::find_in in both match kinds, each forced algorithm variant, on the pattern list and on its sub-list of patterns >= 4 bytes; span find is cross-checked with the model. \
 Non-trivial = 0 < start, end < len, and an occurrence straddles a span boundary in the original or rewritten haystack. Distinct = distinct case fingerprint.",
     assumptions: &["searches are deterministic functions of (searcher, haystack bytes, span), so earliest-mode results are compared by equality too"],
-    cases_quick: 200_000,
+    cases_quick: 500_000,
     cases_thorough: 3_000_000,
     strategy: c10_strategy,
     check: c10_check,
